@@ -263,11 +263,15 @@ def variants(segs: List[Seg], limit: int = 256) -> List[Tuple[Tuple[Tuple[T, boo
 
 # ---------------------------------------------------------------- call shape
 class CallShape:
-    def __init__(self, name: str, positions: List[List[Seg]], tail: List[Seg], closed: bool):
+    def __init__(self, name: str, positions: List[List[Seg]], tail: List[Seg], closed: bool, depths=None):
         self.name = name
         self.positions = positions
         self.tail = tail
         self.closed = closed
+        self.depths = depths or []      # per position: list of (hole term, paren depth, inside double quotes)
+
+    def holes_at(self, p: int):
+        return self.depths[p] if p < len(self.depths) else []
 
 
 def parse_call(flat: List[Seg]) -> Optional[CallShape]:
@@ -287,6 +291,7 @@ def parse_call(flat: List[Seg]) -> Optional[CallShape]:
     if not all(ch.isalnum() or ch == "_" for ch in name):
         return None
     positions: List[List[Seg]] = [[]]
+    depths: List[list] = [[]]
     depth = 1
     rest: List[Seg] = [("lit", first[idx + 1:])] + list(flat[1:])
     tail: List[Seg] = []
@@ -301,6 +306,7 @@ def parse_call(flat: List[Seg]) -> Optional[CallShape]:
             continue
         if s[0] == "hole":
             positions[-1].append(s)
+            depths[-1].append((s[1], depth, in_dq))
             i += 1
             continue
         text = s[1]
@@ -333,6 +339,7 @@ def parse_call(flat: List[Seg]) -> Optional[CallShape]:
                     positions[-1].append(("lit", buf))
                 buf = ""
                 positions.append([])
+                depths.append([])
                 # swallow one following space
                 if j + 1 < len(text) and text[j + 1] == " ":
                     j += 1
@@ -346,7 +353,8 @@ def parse_call(flat: List[Seg]) -> Optional[CallShape]:
         return None
     if len(positions) == 1 and not positions[0]:
         positions = []
-    return CallShape(name, positions, tail, closed)
+        depths = []
+    return CallShape(name, positions, tail, closed, depths)
 
 
 def holes(segs: List[Seg]):
